@@ -4,7 +4,9 @@ package cpusuppress
 
 // Engine `cgroupbe` (C12, second path): the best-effort cpuset two-phase rewrite.
 //
-// Real code in the loop: CPUSuppress.applyCPUSetWithNonePolicy -> writeBECgroupsCPUSet -> ResourceUpdateExecutorImpl.UpdateBatch
+// Real code in the loop: CPUSuppress.applyBESuppressCPUSet (dispatch on the kubelet cpu manager policy reported in the
+// NodeResourceTopology annotation: none -> applyCPUSetWithNonePolicy; static -> recoverCPUSetIfNeed(pod depth) +
+// applyCPUSetWithStaticPolicy, with the real calcBECPUSet) -> writeBECgroupsCPUSet -> ResourceUpdateExecutorImpl.UpdateBatch
 // (cacheable) -> updateByCache/needUpdate/ResourceCache -> the cpuset updater -> cgroupFileWriteIfDifferent on a private
 // temp cgroup root (cgroup v1 and v2 layouts), koordletutil.GetBECPUSetPathsByMaxDepth (directory walk), and the real
 // CgroupReader.ReadCPUSet for the "old" CPU set (as adjustByCPUSet reads it from the BE root cgroup).
@@ -19,6 +21,7 @@ package cpusuppress
 // set of directories is fixed during a round. Everything is stated over the cgroups that exist.
 
 import (
+	"encoding/json"
 	"fmt"
 	"os"
 	"path/filepath"
@@ -28,9 +31,13 @@ import (
 	"testing/synctest"
 	"time"
 
+	topov1alpha1 "github.com/k8stopologyawareschedwg/noderesourcetopology-api/pkg/apis/topology/v1alpha1"
 	corev1 "k8s.io/api/core/v1"
 
+	apiext "github.com/koordinator-sh/koordinator/apis/extension"
+	"github.com/koordinator-sh/koordinator/pkg/koordlet/metriccache"
 	"github.com/koordinator-sh/koordinator/pkg/koordlet/resourceexecutor"
+	"github.com/koordinator-sh/koordinator/pkg/koordlet/statesinformer"
 	koordletutil "github.com/koordinator-sh/koordinator/pkg/koordlet/util"
 	sysutil "github.com/koordinator-sh/koordinator/pkg/koordlet/util/system"
 	sim "github.com/koordinator-sh/koordinator/pkg/verifsim"
@@ -113,6 +120,9 @@ type cgbOp struct {
 	Jump int    `json:"jump,omitempty"`
 	Cpus string `json:"cpus,omitempty"` // suppress: the BE CPU set decided by the suppress policy for this round
 	Node int    `json:"node,omitempty"`
+	// suppress: the kubelet cpu manager policy reported for this round is static: only the container cgroups are suppressed,
+	// the BE QoS and pod cgroups are kept at the full BE CPU set (every CPU of the node: no LSE pods, nothing reserved)
+	Static bool `json:"static,omitempty"`
 }
 
 func cgbSubset(g *sim.Rng, p cgbSet, equalBias int) cgbSet {
@@ -201,7 +211,14 @@ func (cgbEngine) Generate(p *sim.Plan, g *sim.Rng) {
 	}
 	cur := vals[1]
 	var ops []cgbOp
+	// the kubelet policy: none for the whole run / static for the whole run / changes between rounds (a reconfigured kubelet;
+	// the agent's own restart with state left by the other path is covered by the crash axis)
+	policyMode := g.PickInt(0, 0, 0, 1, 2, 2)
+	static := policyMode == 1 || (policyMode == 2 && g.Bool(0.3))
 	for k := 0; k < n; k++ {
+		if policyMode == 2 && k > 0 && g.Bool(0.6) {
+			static = !static
+		}
 		if churn && k > 0 {
 			// after a completed round every existing BE cgroup holds cur; new cgroups start from their parent's set
 			held := make([]cgbSet, nn)
@@ -254,6 +271,7 @@ func (cgbEngine) Generate(p *sim.Plan, g *sim.Rng) {
 			t = cgbSubset(g, all, 1)
 		}
 		op.Cpus = cgbString(t)
+		op.Static = static
 		cur = t
 		ops = append(ops, op)
 	}
@@ -269,10 +287,12 @@ type cgbSub struct {
 	name     string
 	start    []cgbSet
 	target   cgbSet
+	want     []cgbSet // node -> what it must hold when the round is complete
 	writes   int
 	snaps    [][]cgbSet
 	keepSnap bool
 	calls    int
+	detail   string // "" for none-policy rounds, "/static" for static-policy rounds
 }
 
 type cgbH struct {
@@ -289,6 +309,7 @@ type cgbH struct {
 	pending *[3]string
 	present []bool
 	gone    []bool
+	static  bool // the kubelet cpu manager policy the states informer reports right now
 }
 
 func (h *cgbH) nodeDir(n int) string {
@@ -430,12 +451,12 @@ func (h *cgbH) Call(w *resourceexecutor.VerifUpdater, pass string, do func() (re
 	}
 	if class, msg := h.conflict(n, nv); class != "" {
 		if h.cfg.Kernel {
-			r.Fail("kernel-rejected", "cpuset/"+class, "%s: write #%d: %s: the kernel rejects the write", s.name, s.writes+1, msg)
+			r.Fail("kernel-rejected", "cpuset/"+class+s.detail, "%s: write #%d: %s: the kernel rejects the write", s.name, s.writes+1, msg)
 		}
-		r.Fail("hierarchy-invalid", "cpuset/"+class, "%s: after write #%d: %s", s.name, s.writes+1, msg)
+		r.Fail("hierarchy-invalid", "cpuset/"+class+s.detail, "%s: after write #%d: %s", s.name, s.writes+1, msg)
 	}
-	if s.start[n] == s.target {
-		h.deferFail("unchanged-rewritten", "be-cpuset", "%s: cpuset of node %d held %s at the start, which is the target, yet %q was written into it (write #%d)",
+	if s.start[n] == s.want[n] {
+		h.deferFail("unchanged-rewritten", "be-cpuset"+s.detail, "%s: cpuset of node %d held %s at the start, which is its target, yet %q was written into it (write #%d)",
 			s.name, n, cgbString(s.start[n]), raw, s.writes+1)
 	}
 	if nv == h.val[n] {
@@ -460,20 +481,71 @@ func (h *cgbH) newAgent() *CPUSuppress {
 		executor:               resourceexecutor.VerifNewExecutor(h.cfg.Force, stop),
 		cgroupReader:           resourceexecutor.NewCgroupReader(),
 		suppressPolicyStatuses: map[string]suppressPolicyStatus{},
+		statesInformer:         &cgbStates{h: h},
+		metricCache:            &cgbMetrics{h: h},
 	}
 }
 
+// cgbStates / cgbMetrics: the two inputs applyBESuppressCPUSet and calcBECPUSet read besides the cgroup tree: the
+// NodeResourceTopology (kubelet cpu manager policy of the round; no reserved / system-exclusive CPUs), the pod list (no LSE
+// pods) and the node's CPU list. Any other method of the interfaces is not reachable from the code under test (nil embed).
+type cgbStates struct {
+	statesinformer.StatesInformer
+	h *cgbH
+}
+
+func (s *cgbStates) GetNodeTopo() *topov1alpha1.NodeResourceTopology {
+	pol := apiext.KubeletCPUManagerPolicyNone
+	if s.h.static {
+		pol = apiext.KubeletCPUManagerPolicyStatic
+	}
+	b, _ := json.Marshal(&apiext.KubeletCPUManagerPolicy{Policy: pol})
+	t := &topov1alpha1.NodeResourceTopology{}
+	t.Annotations = map[string]string{apiext.AnnotationKubeletCPUManagerPolicy: string(b)}
+	return t
+}
+
+func (s *cgbStates) GetAllPods() []*statesinformer.PodMeta { return nil }
+
+type cgbMetrics struct {
+	metriccache.MetricCache
+	h *cgbH
+}
+
+func (m *cgbMetrics) Get(key interface{}) (interface{}, bool) {
+	if key != metriccache.NodeCPUInfoKey {
+		return nil, false
+	}
+	info := &metriccache.NodeCPUInfo{}
+	for i := 0; i < m.h.cfg.NCPU; i++ {
+		info.ProcessorInfos = append(info.ProcessorInfos, koordletutil.ProcessorInfo{CPUID: int32(i), CoreID: int32(i / 2)})
+	}
+	return info, true
+}
+
 // round: what adjustByCPUSet does once the BE CPU set of the round is decided.
-func (h *cgbH) round(agent *CPUSuppress, target cgbSet, s *cgbSub) {
+func (h *cgbH) round(agent *CPUSuppress, target cgbSet, static bool, s *cgbSub) {
 	r := h.r
 	s.start = append([]cgbSet(nil), h.val...)
 	s.target = target
+	s.want = make([]cgbSet, len(h.val))
+	for n := 1; n < len(h.val); n++ {
+		s.want[n] = target
+		if static && (n == 1 || h.cfg.Parents[n] == 1) {
+			s.want[n] = h.val[0] // static policy: the QoS and pod levels are kept at the full BE CPU set
+		}
+	}
+	if static {
+		s.detail = "/static"
+	}
+	h.static = static
 	if s.keepSnap {
 		s.snaps = [][]cgbSet{s.start}
 	}
 	merged := s.start[1] | target
 	for n := 1; n < len(s.start); n++ {
-		if h.present[n] && s.start[n] == target && merged != target {
+		// history class of the recorded finding: the union phase of the none-policy path
+		if !static && h.present[n] && s.start[n] == target && merged != target {
 			r.Tag("be-cgroup-at-target-while-root-differs")
 		}
 	}
@@ -490,32 +562,32 @@ func (h *cgbH) round(agent *CPUSuppress, target cgbSet, s *cgbSub) {
 			cpus = append(cpus, int32(i))
 		}
 	}
-	if err := agent.applyCPUSetWithNonePolicy(cpus, old.ToInt32Slice()); err != nil {
-		r.HarnessFail("applyCPUSetWithNonePolicy: %v", err)
+	if err := agent.applyBESuppressCPUSet(cpus, old.ToInt32Slice()); err != nil {
+		r.HarnessFail("applyBESuppressCPUSet: %v", err)
 	}
 	h.sub = nil
 	if late := h.scan(); len(late) > 0 {
 		r.Fail("stray-write", "cpuset", "%s: node %d was written outside an updater call", s.name, late[0])
 	}
-	// completion: every BE cgroup holds the target
+	// completion: every BE cgroup holds its target
 	r.OracleEval()
 	for n := 1; n < len(h.val); n++ {
-		if h.present[n] && h.val[n] != target {
-			h.deferFail("target-not-reached", "be-cpuset", "%s: the round returned but node %d holds %s, target %s (held %s at the start; BE root held %s; %d calls, %d writes)",
-				s.name, n, cgbString(h.val[n]), cgbString(target), cgbString(s.start[n]), cgbString(s.start[1]), s.calls, s.writes)
+		if h.present[n] && h.val[n] != s.want[n] {
+			h.deferFail("target-not-reached", "be-cpuset"+s.detail, "%s: the round returned but node %d holds %s, target %s (held %s at the start; BE root held %s; %d calls, %d writes)",
+				s.name, n, cgbString(h.val[n]), cgbString(s.want[n]), cgbString(s.start[n]), cgbString(s.start[1]), s.calls, s.writes)
 			break
 		}
 	}
 	r.Event("%s end writes=%d", s.name, s.writes)
 }
 
-func (h *cgbH) enumerate(of *cgbSub, target cgbSet, depth int) {
+func (h *cgbH) enumerate(of *cgbSub, target cgbSet, static bool, depth int) {
 	r := h.r
 	for k := 0; k < len(of.snaps); k++ {
 		h.restore(of.snaps[k])
 		agent := h.newAgent()
 		s := &cgbSub{name: fmt.Sprintf("%s/restart@%d", strings.TrimSuffix(of.name, "/main"), k), keepSnap: depth > 1}
-		h.round(agent, target, s)
+		h.round(agent, target, static, s)
 		close(h.stops[len(h.stops)-1])
 		h.stops = h.stops[:len(h.stops)-1]
 		if strings.Count(s.name, "/restart@") > 1 {
@@ -527,7 +599,7 @@ func (h *cgbH) enumerate(of *cgbSub, target cgbSet, depth int) {
 			r.Probe("crashpoint:restart-no-write")
 		}
 		if depth > 1 && s.writes > 0 {
-			h.enumerate(s, target, depth-1)
+			h.enumerate(s, target, static, depth-1)
 		}
 	}
 }
@@ -647,6 +719,7 @@ func (cgbEngine) Execute(r *sim.Run) {
 
 	agent := h.newAgent()
 	all := h.val[0]
+	lastStatic := -1
 	for oi, op := range ops {
 		t, ok := cgbParse(op.Cpus)
 		switch n := op.Node; {
@@ -730,9 +803,17 @@ func (cgbEngine) Execute(r *sim.Run) {
 			}
 			st = append(st, fmt.Sprintf("n%d(p%d)=%s", n, cfg.Parents[n], cgbString(h.val[n])))
 		}
-		r.Sample("op%d jump=%ds target=%s tree: %s", oi, op.Jump, op.Cpus, strings.Join(st, " "))
+		r.Sample("op%d jump=%ds static=%v target=%s tree: %s", oi, op.Jump, op.Static, op.Cpus, strings.Join(st, " "))
 		main := &cgbSub{name: fmt.Sprintf("op%d/main", oi), keepSnap: true}
-		h.round(agent, t, main)
+		h.round(agent, t, op.Static, main)
+		r.Probe("round:policy-static=" + strconv.FormatBool(op.Static))
+		if oi > 0 && lastStatic >= 0 && (lastStatic == 1) != op.Static {
+			r.Probe("round:policy-changed:to-static=" + strconv.FormatBool(op.Static))
+		}
+		lastStatic = 0
+		if op.Static {
+			lastStatic = 1
+		}
 		final := append([]cgbSet(nil), h.val...)
 		r.Sample("op%d main: %d calls, %d writes", oi, main.calls, main.writes)
 		r.Probe("main:L=" + cgbBucket(main.writes))
@@ -740,7 +821,7 @@ func (cgbEngine) Execute(r *sim.Run) {
 		if cfg.Crash2 && main.writes <= 8 {
 			depth = 2
 		}
-		h.enumerate(main, t, depth)
+		h.enumerate(main, t, op.Static, depth)
 		h.restore(final)
 	}
 	if h.pending != nil {
